@@ -3,8 +3,10 @@ package main
 import (
 	"fmt"
 	"path/filepath"
+	"runtime"
 	"strings"
 	"sync"
+	"sync/atomic"
 
 	datatransfer "github.com/filecoin-project/go-data-transfer/v2"
 )
@@ -229,8 +231,59 @@ func runH1Race(dir string, seedv uint64, tier string) {
 		res.hist(fmt.Sprintf("warm:%v", warm))
 		res.distinct(label)
 	}
+	// ---- lock-step walks: two reporters (the response being cancelled and the one answering a restart) report
+	// the same positions 1..N at the same instants, each unique; every position is counted exactly once
+	storms := 3
+	npos := 2500
+	if tier == "thorough" {
+		storms, npos = 12, 6000
+	}
+	for sidx := 0; sidx < storms; sidx++ {
+		tid++
+		kind := sidx % 3
+		chid := rig.create(tid, 1, 1, 2, 1, 2, datatransfer.TypedVoucher{Type: "T1", Voucher: nodeOf(3)})
+		rig.seed(chid, seedVariants(datatransfer.Ongoing, tid, 1)[0])
+		report := func(idx int64) {
+			switch kind {
+			case 0:
+				_ = rig.ch.DataQueued(chid, cidOf(1), 10, idx, true)
+			case 1:
+				_ = rig.ch.DataSent(chid, cidOf(1), 10, idx, true)
+			default:
+				_ = rig.ch.DataReceived(chid, cidOf(1), 10, idx, true)
+			}
+		}
+		var arrived int64
+		var wg sync.WaitGroup
+		for g := 0; g < 2; g++ {
+			wg.Add(1)
+			go func() {
+				defer wg.Done()
+				for p := 1; p <= npos; p++ {
+					report(int64(p))
+					atomic.AddInt64(&arrived, 1)
+					for atomic.LoadInt64(&arrived) < int64(2*p) {
+						runtime.Gosched()
+					}
+				}
+			}()
+		}
+		wg.Wait()
+		rig.quiesce(chid)
+		after, _ := rig.rawState(chid)
+		total := []uint64{after.Queued, after.Sent, after.Received}[kind]
+		index := []int64{after.QueuedBlocksTotal, after.SentBlocksTotal, after.ReceivedBlocksTotal}[kind]
+		label := fmt.Sprintf("lock-step walk kind=%d positions=1..%d by two reporters", kind, npos)
+		if total != uint64(npos)*10 || index != int64(npos) {
+			res.fail(monitorFailure{Property: "C07", CaseID: 0, Signature: "lock-step-reporters-miscounted", What: "two reporters walking the same positions at the same instants: a position was counted twice or the index is not the highest position", Input: label,
+				Observed: fmt.Sprintf("total=%d index=%d", total, index), Expected: fmt.Sprintf("total=%d index=%d", npos*10, npos)})
+			res.fail(monitorFailure{Property: "C01", CaseID: 0, Signature: "lock-step-reporters-miscounted", What: "two transport goroutines reporting the same blocks at once (a response being cancelled and the one answering the restart) make the byte total exceed the unique payload size", Input: label,
+				Observed: fmt.Sprintf("total=%d", total), Expected: fmt.Sprintf("total=%d", npos*10)})
+		}
+		res.hist("lock-step-walks")
+	}
 	res.Cases = len(cases)
-	res.Rule = "2-4 goroutines released together report positions for one direction of one fresh channel (cold cache = first report in this process, or warmed by a replay): same position, two positions, consecutive positions, or random around the durable index; 8% non-unique; byte totals incl. wrap-around; the interleaving is whatever the Go scheduler produces (not enumerated), the verdict is membership in the set of sequential outcomes"
+	res.Rule = "2-4 goroutines released together report positions for one direction of one fresh channel (cold cache = first report in this process, or warmed by a replay): same position, two positions, consecutive positions, or random around the durable index; 8% non-unique; byte totals incl. wrap-around; the interleaving is whatever the Go scheduler produces (not enumerated), the verdict is membership in the set of sequential outcomes; plus lock-step walks of two reporters over the same 2500 positions"
 	writeRaceCases(dir, "fsmrace", cases)
 	res.write(dir)
 }
